@@ -2369,7 +2369,9 @@ class SSHConnection(SSHPacketHandler, asyncio.Protocol):
                                packet: SSHPacket) -> None:
         """Process a key exchange request"""
 
-        if self._kex:
+        if self._kex or self._next_recv_encryption:
+            # A new key exchange can't begin until the peer's NEWKEYS
+            # for the current one has been received
             raise ProtocolError('Key exchange already in progress')
 
         _ = packet.get_bytes(16)                        # cookie
